@@ -11,6 +11,7 @@ pub fn check(tier: Tier) -> Check {
         Part::new("C08/acks", json!({"depth": tier.pick(4, 5), "pids": [1, 65535]}), 0, tier.pick(40, 600)),
     ];
     Check {
+        also_rel: false,
         property: "C08",
         level: "model_checking",
         rule: "all sequences of inbound PUBLISH (QoS 0/1/2 x DUP x packet id x subscription identifier absent / live stream / dropped stream / never registered) and PUBREL, with one client publish interleaved; the wire must show exactly one PUBACK/PUBREC/PUBCOMP per packet with its identifier, in arrival order; non-trivial = at least one acknowledgement was due".into(),
